@@ -1301,8 +1301,11 @@ func (r *Run) checkAppendSortReducer(fn *ssa.Function, call *ssa.Call, mapF, red
 	// carried index: a field store in mapF with the closure's parameter
 	var idxField *types.Var
 	if len(mapF.Params) == 1 {
+		// the index is the closure parameter itself, or the index field of the (url, index)
+		// pair the payload was built from with lo.Map over the URL list
+		idxOf := fanoutIndexOf(fn, call, mapF)
 		for _, ins := range allInstrs(mapF) {
-			if st, ok := ins.(*ssa.Store); ok && unwrap(st.Val) == ssa.Value(mapF.Params[0]) {
+			if st, ok := ins.(*ssa.Store); ok && (unwrap(st.Val) == ssa.Value(mapF.Params[0]) || (idxOf != nil && idxOf(unwrap(st.Val)))) {
 				if fa, ok := st.Addr.(*ssa.FieldAddr); ok {
 					idxField = fieldOf(fa)
 				}
